@@ -82,7 +82,11 @@ class Interval:
         self.entry = {}  # bb -> state dict: key -> intervals ; key = local int or (local, field)
         self.preds = {}  # (bb) not needed: predicates are derived per block from defs
         self.iterations = {}
+        self.wraps = []
+        self._cur_line = None
         self.run()
+        # wraps are collected during fixpoint iteration: keep distinct lines
+        self.wrap_lines = sorted({w[0] for w in self.wraps if w[0] is not None})
 
     # -- helpers
     def ty_range(self, local):
@@ -114,7 +118,10 @@ class Interval:
             return None if r is None else None
         if subset(ivs, [r]):
             return ivs
-        return None
+        # the mathematical result leaves the type's range: the operation wraps / truncates (or
+        # traps, where overflow checks exist). Sound abstraction of both: the whole type range.
+        self.wraps.append((self._cur_line, ty, ivs))
+        return (r,)
 
     def arith(self, op, a, b, ty):
         if a is None or b is None:
@@ -153,6 +160,7 @@ class Interval:
     def transfer_stmt(self, st, s):
         if s["k"] != "assign":
             return
+        self._cur_line = s.get("line")
         p = s["p"]
         rv = s["rv"]
         if p["pr"]:
